@@ -29,6 +29,15 @@ PLAN = {
  "C12_m4": [("C12", [])],
  "C19_m1": [("C06", ["--only", "ed448"]), ("C19", ["--only", "ed448"])], "C19_m2": [("C06", ["--only", "secp256k1"]), ("C19", ["--only", "secp256k1"])],
  "C19_m3": [("C15", []), ("C19", ["--only", "frost"])], "C19_m4": [("C08", ["--only", "p256"]), ("C19", ["--only", "p256"])],
+ "C03_m1": [("C03", [])], "C03_m2": [("C03", [])], "C03_m3": [("C03", []), ("C20", ["--only", "ed25519"])], "C03_m4": [("C03", [])],
+ "C13_m1": [("C13", [])], "C13_m2": [("C13", [])], "C13_m3": [("C13", [])], "C13_m4": [("C13", [])],
+ "C14_m1": [("C14", [])], "C14_m2": [("C01", ["--only", "gf448"]), ("C14", [])], "C14_m3": [("C14", [])], "C14_m4": [("C14", [])],
+ "C15_m1": [("C06", ["--only", "ed448"])], "C15_m2": [("C06", ["--only", "p256"])], "C15_m3": [("C06", ["--only", "secp256k1"])],
+ "C15_m4": [("C06", ["--only", "ristretto255"])],
+ "C17_m1": [("C17", [])], "C17_m2": [("C17", [])], "C17_m3": [("C17", [])], "C17_m4": [("C17", [])],
+ "C18_m1": [("C11", ["--only", "zz"])], "C18_m2": [("C11", ["--only", "zz"])], "C18_m3": [("C08", ["--only", "p256"])],
+ "C18_m4": [("C09", ["--only", "jq255s"])],
+ "C10_m1": [("C10", ["--tier", "thorough"])],
 }
 only = sys.argv[1:]
 for sd in sorted(glob.glob(os.path.join(V, "seeded", "*_m*"))):
